@@ -1,9 +1,9 @@
 (* C03: no premature verdicts.  The statement is the "definitive" clause of the one-step
    property ExtOK (first theorem), discharged for the same parsers as C02 (every buffer, suffix,
-   offset and object state).  PARTIAL: ParseHdrLine, ParseHeaders, ParseAllURIParams,
+   offset and object state).  PARTIAL: ParseHeaders, ParseAllURIParams,
    ParseAllURIHdrs and the message parser are carried by the correspondence run and the
    extension oracle only. *)
-From Sipsp Require Import Harness Resume Ext ExtLeaf ExtCSeq ExtTok ExtNameAddr ExtNested ExtLists ExtFLine.
+From Sipsp Require Import Harness Resume Ext ExtLeaf ExtCSeq ExtTok ExtNameAddr ExtNested ExtLists ExtFLine ExtHdrLine.
 Theorem C03_definitive_results_are_final :
   forall (S : Type) (P : list byte -> N -> S -> res S) (obs : S -> list Z) (Inv : N -> S -> Prop),
   ExtOK P obs Inv ->
@@ -54,3 +54,7 @@ Proof. exact (fun flags Hie b x k s0 o e s => no_premature_verdict _ _ _ (tokpar
 Theorem C03_first_line : forall b x k s0 o e s, k <= nnat (length b) ->
   parse_fline b k s0 = Done o e s -> e <> EMore -> req obs_fline (parse_fline (b ++ x) k s0) (Done o e s).
 Proof. exact (fun b x k s0 o e s => no_premature_verdict _ _ _ fline_ExtOK b x k s0 o e s I). Qed.
+
+Theorem C03_header_line : forall b x k s0 o e s, k <= nnat (length b) ->
+  parse_hdrline b k s0 = Done o e s -> e <> EMore -> req (fun x => obs_hdr (hx_h x) ++ obs_opt_phvals (hx_pv x)) (parse_hdrline (b ++ x) k s0) (Done o e s).
+Proof. exact (fun b x k s0 o e s => no_premature_verdict _ _ _ hdrline_ExtOK b x k s0 o e s I). Qed.
